@@ -199,6 +199,10 @@ func stringSwitchConsts(fn *ssa.Function) map[string]bool {
 	return out
 }
 
+var jsonNumberExceptions = map[string]string{
+	"utils.ConvertJsonValueToTv": "decimal64 branch for callers that decoded without UseNumber: the only such caller is the JSON tree importer, which nothing but the tests constructs (NewJsonTreeImporter has no non-test caller); requests are decoded with UseNumber (ExpandUpdate) and arrive as json.Number",
+}
+
 var lossyExceptions = map[string]string{
 	"tree.yangParserEntryAdapter.valueToDatum|uint64->float64": "XPath 1.0 numbers are doubles by definition",
 	"tree.yangParserEntryAdapter.valueToDatum|int64->float64":  "XPath 1.0 numbers are doubles by definition",
@@ -584,6 +588,66 @@ func c12(w *core.World, r *core.Report) {
 	r.Rule("DECIMAL-SIGN", 1, "rendering of decimal64: wherever an integer formatter (strconv.FormatInt, fmt.Sprintf, ...) receives a value that depends on Decimal64.Digits, it receives the whole number (no integer division / remainder in between) or the function tests the sign of Digits itself. A renderer that formats digits/10^p and |digits%10^p| separately drops the sign of every value in (-1,0). Structural necessary condition only; the digits themselves are not checked.")
 	ruleDecimalSign(w, r, "DECIMAL-SIGN")
 
+	// ---- JSON-NUMBER
+	r.Rule("JSON-NUMBER", 0, "a number taken out of decoded JSON as a float64 (type assertion / type switch on an 'any' value) is not rendered back into text (strconv.FormatFloat, fmt.Sprint*): encoding/json decodes every number into a float64 unless the decoder was told UseNumber(), so 64-bit integers above 2^53 and 18-digit decimal64 values are rounded on the way. Frozen exceptions per function.")
+	for _, f := range w.RepoFns {
+		if f.Pkg == nil {
+			continue
+		}
+		if pp := f.Pkg.Pkg.Path(); pp != core.Module+"/pkg/utils" && pp != core.Module+"/pkg/datastore" && pp != core.Module+"/pkg/tree" {
+			continue
+		}
+		for _, b := range f.Blocks {
+			for _, in := range b.Instrs {
+				ta, ok := in.(*ssa.TypeAssert)
+				if !ok {
+					continue
+				}
+				if bt, isB := ta.AssertedType.Underlying().(*types.Basic); !isB || bt.Kind() != types.Float64 {
+					continue
+				}
+				if it, isI := ta.X.Type().Underlying().(*types.Interface); !isI || it.NumMethods() != 0 {
+					continue
+				}
+				// the float64 value (directly, or the first component of the comma-ok form)
+				var vals []ssa.Value
+				if ta.CommaOk {
+					for _, ref := range *ta.Referrers() {
+						if ex, ok := ref.(*ssa.Extract); ok && ex.Index == 0 {
+							vals = append(vals, ex)
+						}
+					}
+				} else {
+					vals = append(vals, ta)
+				}
+				for _, v := range vals {
+					for _, ref := range *v.Referrers() {
+						c, isCall := ref.(*ssa.Call)
+						if !isCall {
+							if mi, isMI := ref.(*ssa.MakeInterface); isMI {
+								// handed to fmt as an argument
+								for _, r2 := range *mi.Referrers() {
+									_ = r2
+								}
+							}
+							continue
+						}
+						if core.CalleeIs(c, "strconv.FormatFloat") {
+							if reason, ok := jsonNumberExceptions[core.HostKey(f)]; ok {
+								r.Info("JSON-NUMBER", core.Site(f, "float64 from decoded JSON rendered as text"), w.InstrPos(c), "frozen exception: "+reason)
+								continue
+							}
+							r.Viol("JSON-NUMBER", core.Site(f, "float64 from decoded JSON rendered as text"), w.InstrPos(c), "a JSON number that went through float64 is turned back into text: integers above 2^53 and long decimals are rounded (decode with UseNumber and keep the literal)")
+						}
+					}
+				}
+			}
+		}
+	}
+
+	// ---- LEAFREF-TARGET (shared with C15)
+	ruleLeafrefTarget(w, r)
+
 	// ---- DECIMAL-AGREE
 	r.Rule("DECIMAL-AGREE", 3, "every string -> decimal64 conversion goes through utils.ParseDecimal64 (sibling agreement): convertStringToTv, ConvertJsonValueToTv (through ConvertDecimal64), ConvertTypedValueToYANGType, ConvertDecimal64; no function of pkg/utils builds an sdcpb.Decimal64 literal from pieces of a split string elsewhere.")
 	for _, f := range w.RepoFns {
@@ -734,4 +798,27 @@ func ruleEqualLeaflist(w *core.World, r *core.Report) {
 	r.Check(nLen >= 2 && cmp, "EQUAL-LEAFLIST", core.Site(f, "lengths compared"), w.Pos(f.Pos()), "leaf-lists of different length must be unequal")
 	rec := core.RecursesInLoop(f)
 	r.Check(rec, "EQUAL-LEAFLIST", core.Site(f, "elements compared pairwise"), w.Pos(f.Pos()), "element-wise comparison by recursion")
+}
+
+// ruleLeafrefTarget (C12, C15): leafref values are typed like the leaf they refer to.
+func ruleLeafrefTarget(w *core.World, r *core.Report) {
+	r.Rule("LEAFREF-TARGET", 2, "sibling agreement of the northbound converters: convertStringToTv and ConvertJsonValueToTv type a leafref value like the leaf it refers to: each calls itself with SchemaLeafType.LeafrefTargetType. A leafref to a uint32 must be stored as the number, not as its text: values are compared typed (deviations, re-apply) and a string \"5\" is not the uint 5.")
+	for _, n := range []string{"convertStringToTv", "ConvertJsonValueToTv"} {
+		f := w.Func("pkg/utils", "", n)
+		if f == nil {
+			continue
+		}
+		ok := false
+		for _, c := range core.Calls(f) {
+			if c.Common().StaticCallee() != f {
+				continue
+			}
+			for _, a := range c.Common().Args {
+				if strings.HasSuffix(core.FieldOf(a), "sdcpb.SchemaLeafType.LeafrefTargetType") {
+					ok = true
+				}
+			}
+		}
+		r.Check(ok, "LEAFREF-TARGET", core.Site(f, "leafref typed as its target"), w.Pos(f.Pos()), "the leafref case must convert with the target leaf's type")
+	}
 }
